@@ -20,7 +20,7 @@ METHODS = [g for g in _sat.ALL] + ["eq_" + g for g in _sat.ALL]
 def FLOORS(tier):
     q = tier == "quick"
     f = {"expression-operand": 600 if q else 20000, "is_solution_valid-checks": 20000 if q else 10 ** 6,
-         "second-constraint-on-model": 300}
+         "second-constraint-on-model": 300, "shared-operand-object": 400}
     for m in METHODS:
         f["method:" + m] = 60 if q else 2000
         g = m.replace("eq_", "")
@@ -35,7 +35,11 @@ def case(ctx, rng, idx):
     H = L.PCBO()
     hist = []
     nontriv = False
-    for ci in range(rng.choice([1, 1, 2])):
+    # operand objects that may be handed to several gates of the history (and several times to one gate): a gate must
+    # not change what its operands mean
+    pool = [_sat.expr(rng, labs, rng.choice([0, 1, 1, 2]), max_arity=2) for _ in range(rng.randint(2, 4))]
+    pool_snap = [dict(o[0]) if isinstance(o[0], dict) else None for o in pool]
+    for ci in range(rng.choice([1, 1, 2, 3])):
         m = rng.choice(METHODS)
         eq = m.startswith("eq_")
         g = m.replace("eq_", "")
@@ -46,7 +50,12 @@ def case(ctx, rng, idx):
             ar = rng.randint(2 if eq else 1, 6)
         ops = []
         for _ in range(ar):
-            if rng.random() < 0.4:
+            if rng.random() < 0.35:
+                ops.append(rng.choice(pool))
+                ctx.cat("shared-operand-object")
+                if isinstance(ops[-1][0], dict):
+                    ctx.cat("expression-operand")
+            elif rng.random() < 0.4:
                 ops.append(_sat.expr(rng, labs, rng.choice([1, 1, 2]), max_arity=2))
                 ctx.cat("expression-operand")
             else:
@@ -68,6 +77,10 @@ def case(ctx, rng, idx):
         ok, ret = ctx.call("add_constraint_" + m, getattr(H, "add_constraint_" + m), *args, lam=lam, _w=w)
         if not ok:
             return
+        for o, sn in zip(pool, pool_snap):
+            if sn is not None and dict(o[0]) != sn:
+                ctx.violation(m + ":operand-mutated", "an operand object changed from %r to %r" % (sn, dict(o[0])), w)
+                return
         delta = ref.from_raw("bool", dict(H)) - before
         if any(isinstance(v, str) and v.startswith("__a") for v in delta.vars()) or H.num_ancillas:
             ctx.violation(m + ":uses-ancilla", "logical constraint introduced ancillas %r" % sorted(map(str, delta.vars())), w)
